@@ -1,8 +1,8 @@
 (* C16 proofs, part a: lists, sorting, searchsorted windows, exactness of the three lookup variants and of the
    range scan on a well built contig index. *)
-From Coq Require Import ZArith List Bool Lia Permutation Sorted.
+From Coq Require Import ZArith List Bool Lia ZifyBool Permutation Sorted.
 Import ListNotations.
-From SCMO Require Import Model.C16.
+From SCMO Require Import Gen.GenFeatures Model.C16.
 Open Scope Z_scope.
 
 (* ------------------------------------------------------------------ generic list facts *)
@@ -82,6 +82,128 @@ Lemma nth_map' {A B} (g : A -> B) (d : A) (d0 : B) k l :
 Proof.
   revert l; induction k as [|k IH]; intros [|a l] H; cbn in *; try lia; [reflexivity|].
   apply IH. lia.
+Qed.
+
+(* ------------------------------------------------------------------ T: shape lemmas
+   The model (Model/C16.v) is written over the definitions g_* regenerated from the current source.  The reference
+   kernel below is what the window proofs are about; each shape lemma re-proves, for the source as it is now, that
+   the generated piece is the reference piece.  A changed side=, search key, comparison operator, window end, block
+   end or a dropped re-index / cache_clear makes the corresponding lemma (and with it every theorem) fail. *)
+Definition smatch_ref := smatch.
+
+Definition at_rec_ref (r : crec) (x q o : Z) : list feat :=
+  let fs := c_feats r in
+  let s := ss_left (c_starts r) (x + 1) in
+  let hi := Nat.min s (length fs) in
+  if o =? 0 then
+    filter (fun f => endok x f && smatch q f) (window (fast_at (c_fast r) s) hi fs)
+  else if o =? 1 then
+    filter (smatch q) (dedup (filter (endok x) (window (ss_left (c_starts r) (x - c_maxlen r)) hi fs)))
+  else
+    filter (smatch q) (dedup (filter (endok x) (window 0 hi fs))).
+
+Definition pre_rec_ref (fs : list feat) : crec :=
+  mkC fs true (map f_start fs) (sort_Z (map f_end fs)) (list_max (map (fun f => f_end f - f_start f) fs)) [].
+
+Fixpoint scan_between_ref (a b q : Z) (l : list feat) : list feat :=
+  match l with
+  | [] => []
+  | f :: t => if f_start f >? b then []
+              else (if overlap a b f && smatch q f then [f] else []) ++ scan_between_ref a b q t
+  end.
+
+Definition between_rec_ref (r : crec) (a b q : Z) : list feat :=
+  let i0 := (ss_left (c_starts r) a - 1)%nat in
+  let k := ss_left (c_ends r) b in
+  scan_between_ref a b q (skipn (Nat.min i0 k) (c_feats r)).
+
+(* np.searchsorted calls: side and key *)
+Lemma ss_s_shape l x : ss g_s_side l (g_s_key x) = ss_left l (x + 1).
+Proof. unfold ss, g_s_side, g_s_key. cbn [Z.eqb]. f_equal; lia. Qed.
+Lemma ss_nb_shape l x m : ss g_nb_side l (g_nb_key x m) = ss_left l (x - m).
+Proof. unfold ss, g_nb_side, g_nb_key. cbn [Z.eqb]. f_equal; lia. Qed.
+Lemma ss_optim_shape l x : ss g_optim_side l (g_optim_key x) = ss_left l (x + 1).
+Proof. unfold ss, g_optim_side, g_optim_key. cbn [Z.eqb]. f_equal; lia. Qed.
+Lemma ss_fastidx_shape l v : ss g_fastidx_side l v = ss_left l v.
+Proof. unfold ss, g_fastidx_side. cbn [Z.eqb]. reflexivity. Qed.
+Lemma ss_btw_s_shape l a b : ss g_btw_s_side l (g_btw_s_key a b) = ss_left l a.
+Proof. unfold ss, g_btw_s_side, g_btw_s_key. cbn [Z.eqb]. f_equal; lia. Qed.
+Lemma ss_btw_e_shape l a b : ss g_btw_e_side l (g_btw_e_key a b) = ss_left l b.
+Proof. unfold ss, g_btw_e_side, g_btw_e_key. cbn [Z.eqb]. f_equal; lia. Qed.
+
+(* window ends *)
+Lemma fast_end_shape s n : Z.to_nat (g_fast_end (Z.of_nat s) (Z.of_nat n)) = Nat.min s n.
+Proof. unfold g_fast_end. lia. Qed.
+Lemma nb_end_shape s n : Z.to_nat (g_nb_end (Z.of_nat s) (Z.of_nat n)) = Nat.min s n.
+Proof. unfold g_nb_end. lia. Qed.
+Lemma optim_end_shape s n : Z.to_nat (g_optim_end (Z.of_nat s) (Z.of_nat n)) = Nat.min s n.
+Proof. unfold g_optim_end. lia. Qed.
+
+(* scan conditions *)
+Lemma fast_keep_shape x q f :
+  g_fast_keep (f_end f) x (q =? 0) (f_strand f =? q) = endok x f && smatch q f.
+Proof. unfold g_fast_keep, endok, smatch. lia. Qed.
+Lemma nb_keep_shape x f : g_nb_keep (f_end f) x = endok x f.
+Proof. unfold g_nb_keep, endok. lia. Qed.
+Lemma optim_keep_shape x f : g_optim_keep (f_end f) x = endok x f.
+Proof. unfold g_optim_keep, endok. lia. Qed.
+Lemma strand_keep_shape q f : g_strand_keep (q =? 0) (f_strand f =? q) = smatch q f.
+Proof. unfold g_strand_keep, smatch. lia. Qed.
+Lemma btw_stop_shape b f : g_btw_stop (f_start f) b = (f_start f >? b).
+Proof. unfold g_btw_stop. lia. Qed.
+Lemma btw_cond_shape a b q f :
+  g_btw_overlap a b (f_start f) (f_end f) && g_btw_strand (q =? 0) (q =? f_strand f) = overlap a b f && smatch q f.
+Proof. unfold g_btw_overlap, g_btw_strand, overlap, smatch. lia. Qed.
+Lemma btw_start_shape ssa sse :
+  Z.to_nat (g_btw_start (g_btw_i0 (Z.of_nat ssa)) (Z.of_nat sse)) = Nat.min (ssa - 1) sse.
+Proof. unfold g_btw_start, g_btw_i0. lia. Qed.
+Lemma len_shape f : g_len (f_start f) (f_end f) = f_end f - f_start f.
+Proof. unfold g_len. lia. Qed.
+
+(* the read annotation: half open pysam block -> closed range *)
+Lemma block_start_shape bs be : g_block_start bs be = bs.
+Proof. unfold g_block_start. lia. Qed.
+Lemma block_end_shape bs be : g_block_end bs be = be - 1.
+Proof. unfold g_block_end. lia. Qed.
+
+(* which lookups re-index an unsorted container first; where the lru_cache is cleared *)
+Lemma autosort_at_shape : g_autosort_at = true.
+Proof. reflexivity. Qed.
+Lemma cfg_fixed_shape : cfg_fixed = cfg_ref.
+Proof. reflexivity. Qed.
+
+Lemma filter_ext' {A} (p q : A -> bool) (l : list A) : (forall x, p x = q x) -> filter p l = filter q l.
+Proof. intros H. induction l as [|a l IH]; cbn; [reflexivity|]. rewrite H, IH. reflexivity. Qed.
+
+Lemma at_rec_shape r x q o : at_rec r x q o = at_rec_ref r x q o.
+Proof.
+  unfold at_rec, at_rec_ref. cbv zeta.
+  rewrite ss_s_shape, ss_nb_shape, ss_optim_shape, fast_end_shape, nb_end_shape, optim_end_shape.
+  destruct (o =? 0); [apply filter_ext'; intros f; apply fast_keep_shape|].
+  destruct (o =? 1).
+  - rewrite (filter_ext' (fun f => g_strand_keep (q =? 0) (f_strand f =? q)) (smatch q)) by (intros f; apply strand_keep_shape).
+    rewrite (filter_ext' (fun f => g_nb_keep (f_end f) x) (endok x)) by (intros f; apply nb_keep_shape). reflexivity.
+  - rewrite (filter_ext' (fun f => g_strand_keep (q =? 0) (f_strand f =? q)) (smatch q)) by (intros f; apply strand_keep_shape).
+    rewrite (filter_ext' (fun f => g_optim_keep (f_end f) x) (endok x)) by (intros f; apply optim_keep_shape). reflexivity.
+Qed.
+
+Lemma pre_rec_shape fs : pre_rec fs = pre_rec_ref fs.
+Proof.
+  unfold pre_rec, pre_rec_ref.
+  replace (map (fun f => g_len (f_start f) (f_end f)) fs) with (map (fun f => f_end f - f_start f) fs); [reflexivity|].
+  apply map_ext. intros f. symmetry. apply len_shape.
+Qed.
+
+Lemma scan_shape a b q l : scan_between a b q l = scan_between_ref a b q l.
+Proof.
+  induction l as [|f t IH]; cbn [scan_between scan_between_ref]; [reflexivity|].
+  rewrite btw_stop_shape, btw_cond_shape, IH. reflexivity.
+Qed.
+
+Lemma between_rec_shape r a b q : between_rec r a b q = between_rec_ref r a b q.
+Proof.
+  unfold between_rec, between_rec_ref. cbv zeta.
+  rewrite ss_btw_s_shape, ss_btw_e_shape, btw_start_shape, scan_shape. reflexivity.
 Qed.
 
 (* ------------------------------------------------------------------ feature equality, dedup *)
@@ -317,7 +439,18 @@ Definition build_pure (fs0 : list feat) : crec :=
   let fs := sort_feats fs0 in
   let r1 := pre_rec fs in
   mkC fs true (c_starts r1) (c_ends r1) (c_maxlen r1)
+      (map (fun f => ss g_fastidx_side (c_starts r1) (min_start (at_rec r1 (f_start f) 0 1))) fs).
+
+Lemma build_pure_unfold fs0 :
+  build_pure fs0 =
+  let fs := sort_feats fs0 in
+  let r1 := pre_rec_ref fs in
+  mkC fs true (c_starts r1) (c_ends r1) (c_maxlen r1)
       (map (fun f => ss_left (c_starts r1) (min_start (at_rec r1 (f_start f) 0 1))) fs).
+Proof.
+  unfold build_pure. cbv zeta. rewrite pre_rec_shape.
+  f_equal; apply map_ext; intros f; apply ss_fastidx_shape.
+Qed.
 
 Record wb (r : crec) : Prop := {
   wb_idx : c_indexed r = true;
@@ -337,7 +470,7 @@ Lemma at_rec_set_exact r x q o :
   o = 1 \/ o = 2 ->
   at_rec r x q o = filter (smatch q) (dedup (filter (contains x) (c_feats r))).
 Proof.
-  intros Hs Hst Hmax Hnn Ho. unfold at_rec. rewrite Hst.
+  intros Hs Hst Hmax Hnn Ho. rewrite at_rec_shape. unfold at_rec_ref. rewrite Hst.
   destruct Ho as [Ho|Ho]; subst o; cbn [Z.eqb Pos.eqb].
   - rewrite nb_window_exact by assumption. reflexivity.
   - rewrite optim_window_exact by assumption. reflexivity.
@@ -346,17 +479,22 @@ Qed.
 Lemma smatch0 f : smatch 0 f = true.
 Proof. reflexivity. Qed.
 
-Lemma pre_rec_nb_In fs x f :
+Lemma pre_rec_ref_nb_In fs x f :
   sorted_start fs -> (forall g, In g fs -> f_start g <= f_end g) ->
-  (In f (at_rec (pre_rec fs) x 0 1) <-> In f fs /\ contains x f = true).
+  (In f (at_rec (pre_rec_ref fs) x 0 1) <-> In f fs /\ contains x f = true).
 Proof.
   intros Hs Hwf.
-  rewrite at_rec_set_exact; cbn [pre_rec c_feats c_starts c_maxlen]; auto.
+  rewrite at_rec_set_exact; cbn [pre_rec_ref c_feats c_starts c_maxlen]; auto.
   - rewrite filter_all by (intros; apply smatch0). rewrite dedup_In, filter_In. tauto.
   - intros g Hg. apply list_max_ge. apply (in_map (fun f => f_end f - f_start f)). exact Hg.
   - apply list_max_nonneg. intros a Ha. apply in_map_iff in Ha. destruct Ha as [g [Hg Hin]].
     specialize (Hwf g Hin). lia.
 Qed.
+
+Lemma pre_rec_nb_In fs x f :
+  sorted_start fs -> (forall g, In g fs -> f_start g <= f_end g) ->
+  (In f (at_rec (pre_rec fs) x 0 1) <-> In f fs /\ contains x f = true).
+Proof. rewrite pre_rec_shape. apply pre_rec_ref_nb_In. Qed.
 
 Lemma build_wb fs0 : (forall f, In f fs0 -> f_start f <= f_end f) -> wb (build_pure fs0).
 Proof.
@@ -364,7 +502,8 @@ Proof.
   assert (Hs : sorted_start (sort_feats fs0)) by apply sort_sorted.
   assert (Hwf : forall g, In g (sort_feats fs0) -> f_start g <= f_end g).
   { intros g Hg. apply Hwf0. apply sort_In. exact Hg. }
-  constructor; cbn [build_pure pre_rec c_feats c_starts c_maxlen c_indexed c_fast]; auto.
+  rewrite build_pure_unfold.
+  constructor; cbn [pre_rec_ref c_feats c_starts c_maxlen c_indexed c_fast]; auto.
   - intros f Hf. apply list_max_ge. apply (in_map (fun f => f_end f - f_start f)). exact Hf.
   - apply list_max_nonneg. intros a Ha. apply in_map_iff in Ha. destruct Ha as [g [Hg Hin]].
     specialize (Hwf g Hin). lia.
@@ -384,9 +523,9 @@ Proof.
       assert (Hh_in : In h fs) by (apply nth_In; exact Hk).
       assert (Hh_x : f_start h <= x).
       { pose proof (nth_In_firstn d k fs Hk) as H. rewrite <- Es in H. apply ss_firstn in H. fold h in H. lia. }
-      set (v := at_rec (pre_rec fs) (f_start h) 0 1).
+      set (v := at_rec (pre_rec_ref fs) (f_start h) 0 1).
       assert (Hv : forall f, In f v <-> In f fs /\ contains (f_start h) f = true)
-        by (intros f; apply pre_rec_nb_In; assumption).
+        by (intros f; apply pre_rec_ref_nb_In; assumption).
       assert (Hhv : In h v).
       { apply Hv. split; [exact Hh_in|]. unfold contains. specialize (Hwf h Hh_in).
         apply andb_true_iff. split; apply Z.leb_le; lia. }
@@ -411,7 +550,7 @@ Definition hit_between (a b q : Z) (f : feat) : bool := overlap a b f && smatch 
 
 Lemma at_exact_fast r x q : wb r -> at_rec r x q 0 = filter (hit x q) (c_feats r).
 Proof.
-  intros [_ _ _ _ _ Hfast]. unfold at_rec. cbn [Z.eqb].
+  intros [_ _ _ _ _ Hfast]. rewrite at_rec_shape. unfold at_rec_ref. cbn [Z.eqb].
   rewrite filter_andb. rewrite Hfast. unfold hit. rewrite filter_andb. reflexivity.
 Qed.
 
@@ -431,7 +570,7 @@ Proof.
 Qed.
 
 Lemma scan_sound a b q l f :
-  In f (scan_between a b q l) -> In f l /\ hit_between a b q f = true.
+  In f (scan_between_ref a b q l) -> In f l /\ hit_between a b q f = true.
 Proof.
   induction l as [|g t IH]; cbn; [contradiction|].
   destruct (f_start g >? b); [contradiction|].
@@ -443,7 +582,7 @@ Qed.
 
 Lemma scan_complete a b q l f :
   sorted_start l -> In f l -> f_start f <= b -> hit_between a b q f = true ->
-  In f (scan_between a b q l).
+  In f (scan_between_ref a b q l).
 Proof.
   unfold sorted_start. induction l as [|g t IH]; intros Hs Hin Hb Hhit; [contradiction|].
   inversion Hs as [|? ? Hst Hall]; subst. cbn.
@@ -467,7 +606,7 @@ Lemma between_exact r a b q f :
 Proof.
   intros Hwb Hab. pose proof Hwb as [_ Hs Hst _ _ _].
   rewrite dedup_In, !in_app_iff. rewrite !(at_exact_In r _ q 0 f Hwb) by (left; reflexivity).
-  unfold between_rec. set (n0 := Nat.min _ _).
+  rewrite between_rec_shape. unfold between_rec_ref. set (n0 := Nat.min _ _).
   split.
   - intros [H|[[H1 H2]|[H1 H2]]].
     + apply scan_sound in H. destruct H as [H1 H2]. split; [eapply In_skipn; exact H1 | exact H2].
